@@ -60,6 +60,12 @@ def run(ctx: core.Ctx) -> int:
                         env.setdefault(nm.id, []).append(s.value)
     # eigenvalue comparison(s)
     def _is_eig(v):
+        if isinstance(v, ast.Subscript) and isinstance(v.value, ast.Call) and ast.unparse(v.value.func).split(".")[-1] in ("eig", "eigh"):
+            # np.linalg.eig returns (eigenvalues, eigenvectors): the gate must look at component 0
+            if not (isinstance(v.slice, ast.Constant) and v.slice.value == 0):
+                ctx.oblige("GATE-REL", where, f"`{ast.unparse(v)}` takes the eigenvalues", False, file=F, func=q, construct="eigenvalue component",
+                           msg=f"`{ast.unparse(v)}` is not the eigenvalue component (index 0) of np.linalg.eig's result: the gate tests eigenvector entries",
+                           line=v.lineno)
         while isinstance(v, ast.Subscript):
             v = v.value
         if isinstance(v, ast.Attribute) and v.attr in ("real",):
@@ -75,6 +81,105 @@ def run(ctx: core.Ctx) -> int:
             if le != re_:
                 comps.append((c, r if le else l))
     ctx.floor("GATE-REL", len(comps), 1, "eigenvalue comparisons in assert_valid_covariance")
+    par_of = {}
+    for p_ in ast.walk(fn):
+        for ch in ast.iter_child_nodes(p_):
+            par_of[ch] = p_
+    defaults = {a.arg: d for a, d in zip(fn.args.kwonlyargs, fn.args.kw_defaults) if d is not None}
+    defaults.update(dict(zip([a.arg for a in fn.args.args][len(fn.args.args) - len(fn.args.defaults):], fn.args.defaults)))
+
+    def tol_form(e, depth=0):
+        """a tolerance expression as (numeric constant, [increasing magnitude atoms]) or (None, reason): a product of one constant and quantities
+        that grow with the size / magnitude of the matrix.  A min(), a division by such a quantity or a sum is not of that form."""
+        if depth > 6:
+            return None, "too deep"
+        if isinstance(e, ast.Constant) and isinstance(e.value, (int, float)) and not isinstance(e.value, bool):
+            return float(e.value), []
+        if isinstance(e, ast.UnaryOp) and isinstance(e.op, ast.USub):
+            c_, at = tol_form(e.operand, depth + 1)
+            return (None, at) if c_ is None else (-c_, at)
+        if isinstance(e, ast.Name):
+            if e.id in defaults and e.id not in env:
+                return tol_form(defaults[e.id], depth + 1)
+            if len(env.get(e.id, [])) == 1:
+                return tol_form(env[e.id][0], depth + 1)
+            return None, f"`{e.id}` has no single definition"
+        if isinstance(e, ast.BinOp) and isinstance(e.op, ast.Mult):
+            (c1, a1), (c2, a2) = tol_form(e.left, depth + 1), tol_form(e.right, depth + 1)
+            if c1 is None:
+                return None, a1
+            if c2 is None:
+                return None, a2
+            return c1 * c2, a1 + a2
+        if isinstance(e, ast.BinOp) and isinstance(e.op, ast.Div):
+            (c1, a1), (c2, a2) = tol_form(e.left, depth + 1), tol_form(e.right, depth + 1)
+            if c1 is None:
+                return None, a1
+            if c2 is None:
+                return None, a2
+            if a2:
+                return None, f"divides by `{ast.unparse(e.right)[:50]}`, a quantity that grows with the matrix: the tolerance shrinks for large matrices"
+            return c1 / c2, a1
+        if isinstance(e, ast.Call):
+            f = ast.unparse(e.func)
+            if f == "max" and len(e.args) == 2:
+                parts = [tol_form(a, depth + 1) for a in e.args]
+                consts = [p_[0] for p_ in parts if p_[0] is not None and not p_[1]]
+                grow = [p_ for p_ in parts if p_[0] is not None and p_[1]]
+                if len(consts) == 1 and len(grow) == 1 and consts[0] > 0 and grow[0][0] > 0:
+                    return 1.0, [f"max({consts[0]:g}, " + "*".join(grow[0][1]) + ")"]
+                return None, f"`{ast.unparse(e)[:60]}` is not max(positive constant, magnitude)"
+            if f == "min":
+                return None, f"`{ast.unparse(e)[:60]}` caps the scale: above the cap the tolerance is absolute again"
+            if f == "len" and e.args and ast.unparse(e.args[0]) == param:
+                return 1.0, ["n"]
+            if f in ("np.max", "np.amax", "numpy.max", "np.linalg.norm", "np.trace", "np.sum") and e.args:
+                inner = e.args[0]
+                if isinstance(inner, ast.Call) and ast.unparse(inner.func) in ("np.abs", "abs", "np.absolute", "np.diag") and inner.args \
+                        and depends_on(inner.args[0], {param} | eig_names, env):
+                    return 1.0, [f"{f}|{ast.unparse(inner.args[0])[:30]}|"]
+                if f in ("np.linalg.norm", "np.trace") and depends_on(inner, {param} | eig_names, env):
+                    return 1.0, [f"{f}({ast.unparse(inner)[:30]})"]
+            return None, f"`{ast.unparse(e)[:60]}` is not a recognised magnitude of the matrix"
+        if isinstance(e, ast.Subscript) and ast.unparse(e).replace(" ", "") in (f"{param}.shape[0]", f"{param}.shape[1]"):
+            return 1.0, ["n"]
+        return None, f"`{ast.unparse(e)[:60]}` is not a product of a constant and magnitudes of the matrix"
+    for c, thr in comps:
+        # polarity: the gate raises exactly when some eigenvalue lies below the threshold
+        eig_left = any(isinstance(n_, ast.Name) and n_.id in eig_names for n_ in ast.walk(c.left)) or "eig" in ast.unparse(c.left)
+        below = isinstance(c.ops[0], (ast.Lt, ast.LtE)) if eig_left else isinstance(c.ops[0], (ast.Gt, ast.GtE))     # the comparison says "eig below thr"
+        pol, node, quant = True, c, None
+        st = None
+        while node in par_of:
+            up = par_of[node]
+            if isinstance(up, ast.UnaryOp) and isinstance(up.op, ast.Not):
+                pol = not pol
+            if isinstance(up, ast.Call) and ast.unparse(up.func).split(".")[-1] in ("any", "all"):
+                quant = ast.unparse(up.func).split(".")[-1]
+            if isinstance(up, (ast.If, ast.Assert)) and node is up.test:
+                st = up
+                break
+            node = up
+        okp, whyp = False, "the comparison is not the test of an `if ...: raise` or an assert"
+        if st is not None:
+            says_bad = below if pol else not below          # the tested expression is true when (some / every) eigenvalue is below the threshold
+            want_quant = "any" if says_bad else "all"
+            if isinstance(st, ast.If):
+                raises = any(isinstance(x, ast.Raise) for x in st.body)
+                okp = raises and says_bad and quant in (None, "any")
+                whyp = ("raises when " + ("no" if not says_bad else "every" if quant == "all" else "an") + " eigenvalue is below the threshold") if raises else "the test raises nothing"
+            else:
+                okp = (not says_bad) and quant in (None, "all")
+                whyp = "asserts that " + ("some" if quant == "any" else "the") + " eigenvalue(s) are " + ("below" if says_bad else "not below") + " the threshold"
+            _ = want_quant
+        ctx.oblige("GATE-REL", where, f"`{ast.unparse(c)}` refuses exactly the matrices with an eigenvalue below the threshold", okp, file=F, func=q,
+                   construct="eigenvalue gate polarity", msg=f"the eigenvalue gate {whyp}: valid covariances are refused (or invalid ones accepted)", line=c.lineno)
+        cst, atoms = tol_form(thr)
+        okf = cst is not None and -1e-6 <= cst < 0 and bool(atoms)
+        ctx.oblige("GATE-REL", where, f"threshold `{ast.unparse(thr)}` = {cst} * {atoms}", okf, file=F, func=q, construct="eigenvalue threshold form",
+                   msg=(f"the eigenvalue threshold `{ast.unparse(thr)}`: {atoms}" if cst is None else
+                        f"the eigenvalue threshold `{ast.unparse(thr)}` is {cst:g} x {atoms}: required a small negative constant times quantities that grow "
+                        f"with the size / magnitude of the matrix"), line=c.lineno)
     for c, thr in comps:
         ok = depends_on(thr, {param} | eig_names, env)
         ctx.oblige("GATE-REL", where, f"`{ast.unparse(c)}`: threshold `{ast.unparse(thr)}`", ok, file=F, func=q, construct="eigenvalue threshold",
@@ -89,6 +194,14 @@ def run(ctx: core.Ctx) -> int:
         okt = any(depends_on(t, {param}, env) for t in tol)
         # comparing normalised operands is also relative to the matrix
         okn = all(isinstance(a, ast.BinOp) and isinstance(a.op, ast.Div) and depends_on(a.right, {param}, env) for a in c.args[:2]) if len(c.args) >= 2 else False
+        for t in tol:
+            if depends_on(t, {param}, env):
+                cst, atoms = tol_form(t)
+                okf = cst is not None and 0 < cst <= 1e-5 and bool(atoms)
+                ctx.oblige("SYM-REL", where, f"tolerance `{ast.unparse(t)}` = {cst} * {atoms}", okf, file=F, func=q, construct="symmetry tolerance form",
+                           msg=(f"the symmetry tolerance `{ast.unparse(t)}`: {atoms}" if cst is None else
+                                f"the symmetry tolerance `{ast.unparse(t)}` is {cst:g} x {atoms}: required a small positive constant times the magnitude of the matrix"),
+                           line=c.lineno)
         ctx.oblige("SYM-REL", where, f"`{ast.unparse(c)}`", okt or okn, file=F, func=q, construct="symmetry tolerance",
                    msg=f"the symmetry gate `{ast.unparse(c)}` uses a tolerance that does not depend on the magnitude of the matrix: a covariance that is "
                        f"symmetric up to rounding relative to its magnitude is refused once its entries are large", line=c.lineno)
